@@ -107,8 +107,12 @@ func verifLemmaClockCompare(a, b, c iface.IPFSLogEntry) (int, int, int, int) {
 
 // Sort delegates to sort.SliceStable (outside the module): its contract is assumed, not proved.
 // It permutes the slice in place; nothing else changes.
+// preorder(fn): the comparator, read as a function of the hashes, is a total preorder whose strict part is ">0"
+//@ define preorder(fn fn) = (forall a string, b string :: {ordH(fn, a, b)} ordH(fn, a, b) >= 0 || ordH(fn, b, a) >= 0) && (forall a string, b string :: {ordH(fn, a, b)} (ordH(fn, a, b) > 0) == !(ordH(fn, b, a) >= 0)) && (forall a string, b string, c string :: {ordH(fn, a, b), ordH(fn, b, c)} ordH(fn, a, b) >= 0 && ordH(fn, b, c) >= 0 ==> ordH(fn, a, c) >= 0)
 //@ func Sort
 //@   trusted
+//@ @lin ensures [descending-for-a-total-preorder] reverse && preorder(compFunc) ==> forall i int, j int :: 0 <= i && i < j && j < len(values) ==> ordH(compFunc, ehash(values[i]), ehash(values[j])) >= 0
+//@ @lin ensures [ascending-for-a-total-preorder] !reverse && preorder(compFunc) ==> forall i int, j int :: 0 <= i && i < j && j < len(values) ==> ordH(compFunc, ehash(values[i]), ehash(values[j])) <= 0
 //@   modifies elems(values)
 //@   witness perm(Int) Int
 //@   witness inv(Int) Int
